@@ -2111,3 +2111,115 @@ func rootDeep(rt Root, depth int) string {
 	sort.Strings(outs)
 	return base + "{" + strings.Join(outs, "|") + "}"
 }
+
+// ---------------------------------------------------------------------------
+// lock names survive a rename
+
+var lockForCache = map[string]string{}
+
+// lockFor answers "which mutex field of pkg.typ guards dataField?". The rules name the lock they
+// confirmed by hand (lockField); while the struct still has a mutex field of that name, that is the
+// answer. After a rename of the (unexported) mutex the name is re-discovered from the code: the
+// mutex field of the same struct that is held at most accesses of dataField outside constructors.
+// A single deviant access therefore still contradicts the majority and is reported by the caller.
+func (r *Report) lockFor(pkg, typ, dataField, lockField string) string {
+	k := pkg + "|" + typ + "|" + dataField + "|" + lockField
+	if v, ok := lockForCache[k]; ok {
+		return v
+	}
+	lockForCache[k] = lockField
+	sp := r.P.SSAPkgs[Module+"/"+pkg]
+	if sp == nil {
+		return lockField
+	}
+	m, ok := sp.Members[typ].(*ssa.Type)
+	if !ok {
+		return lockField
+	}
+	st, ok := m.Type().Underlying().(*types.Struct)
+	if !ok {
+		return lockField
+	}
+	isMutex := func(t types.Type) bool {
+		s := t.String()
+		return s == "sync.Mutex" || s == "sync.RWMutex" || s == "*sync.Mutex" || s == "*sync.RWMutex"
+	}
+	mutexes := map[string]bool{}
+	for i := 0; i < st.NumFields(); i++ {
+		if isMutex(st.Field(i).Type()) {
+			mutexes[st.Field(i).Name()] = true
+		}
+	}
+	if mutexes[lockField] || len(mutexes) == 0 {
+		return lockField
+	}
+	votes := map[string]int{}
+	for _, fa := range r.P.FieldAccesses(pkg, typ, dataField) {
+		if IsFresh(fa.Base) {
+			continue
+		}
+		for path := range lockSetsOf(fa.Fn).HeldAll(fa.In) {
+			if i := strings.LastIndex(path, "."); i >= 0 && mutexes[path[i+1:]] {
+				votes[path[i+1:]]++
+			}
+		}
+	}
+	best, bn, tie := "", 0, false
+	for n, c := range votes {
+		if c > bn {
+			best, bn, tie = n, c, false
+		} else if c == bn {
+			tie = true
+		}
+	}
+	if best != "" && !tie {
+		r.Note("lock %s.%s no longer exists; %s.%s is guarded by %s at %d accesses (re-discovered)", typ, lockField, typ, dataField, best, bn)
+		lockForCache[k] = best
+		return best
+	}
+	return lockField
+}
+
+// structMutexes lists the sync.Mutex / sync.RWMutex fields of the named struct pkg.typ.
+func (r *Report) structMutexes(pkg, typ string) map[string]bool {
+	out := map[string]bool{}
+	sp := r.P.SSAPkgs[Module+"/"+pkg]
+	if sp == nil {
+		return out
+	}
+	m, ok := sp.Members[typ].(*ssa.Type)
+	if !ok {
+		return out
+	}
+	st, ok := m.Type().Underlying().(*types.Struct)
+	if !ok {
+		return out
+	}
+	for i := 0; i < st.NumFields(); i++ {
+		switch strings.TrimPrefix(st.Field(i).Type().String(), "*") {
+		case "sync.Mutex", "sync.RWMutex":
+			out[st.Field(i).Name()] = true
+		}
+	}
+	return out
+}
+
+// held: the mode in which lockField of pkg.typ is held before in. When the struct no longer has
+// a mutex of that name (renamed), the strongest mode of any mutex field of that struct held at
+// in is returned instead: the obligation degrades to "a lock of this object is held" rather
+// than raising an alarm about a name.
+func (r *Report) held(ls *LockSets, in ssa.Instruction, pkg, typ, lockField string) string {
+	ms := r.structMutexes(pkg, typ)
+	if ms[lockField] || len(ms) == 0 {
+		return ls.Held(in, lockField)
+	}
+	best := ""
+	for path, mode := range ls.HeldAll(in) {
+		if i := strings.LastIndex(path, "."); i >= 0 && ms[path[i+1:]] {
+			if mode == "W" || best == "" {
+				best = mode
+			}
+		}
+	}
+	return best
+}
